@@ -109,28 +109,30 @@ Print Assumptions C17_run.
 
 (* ---- hand-written class hierarchies ---------------------------------------------------- *)
 (* `class D(B)` overriding node_function, B a hand-written Function class ([derive], Wrap.v).
-   PARTIAL: D is wrapped exactly as its own definition (so C17_inputs .. C17_run apply to it as
-   they stand) when D declares its labels, or when B declares none and D is used before B.
-   Guard = the two cases; what is left out is inheritance of B's declared labels (next theorem,
-   intended python semantics) and the leak of B's SCRAPED labels (refuted below). *)
-Theorem C17_subclass_partial : forall base_first b d,
-  f_declared d <> None \/ (f_declared b = None /\ base_first = false) -> derive base_first b d = d.
+   D is wrapped exactly as its own definition (so C17_inputs .. C17_run apply to it as they
+   stand) when D declares its labels or B declares none; otherwise D takes B's declared labels
+   (a class attribute, intended python semantics).  In every case it makes no difference whether
+   B or D was previewed / instantiated first. *)
+Theorem C17_subclass : forall base_first b d,
+  f_declared d <> None \/ f_declared b = None -> derive base_first b d = d.
 Proof. exact derive_own. Qed.
-Print Assumptions C17_subclass_partial.
+Print Assumptions C17_subclass.
 
 Theorem C17_subclass_inherits_declared : forall base_first b d l,
   f_declared d = None -> f_declared b = Some l -> f_declared (derive base_first b d) = Some l.
 Proof. exact derive_inherits_declared. Qed.
 Print Assumptions C17_subclass_inherits_declared.
 
-(* Without the guard the statement is FALSE of the code: B returns `x`, D returns `shift`, neither
-   declares labels; used after B, D's output is labelled "x" (B's scraped label, memoised on the
-   inherited class attribute), used before B it is "shift".  Known finding
-   C17-scraped-labels-leak-to-subclass. *)
-Theorem C17_subclass_refuted_scraped_leak : exists b d k1 k2,
+Theorem C17_subclass_order_irrelevant : forall b d, derive true b d = derive false b d.
+Proof. exact derive_order_irrelevant. Qed.
+Print Assumptions C17_subclass_order_irrelevant.
+
+(* the scenario of the former defect: B returns `x`, D returns `shift`, neither declares labels --
+   used after B or before it, D's output is labelled "shift" *)
+Example C17_subclass_scraped_labels_own : exists b d k,
   f_declared b = None /\ f_declared d = None /\
-  function_class (derive true b d) = Ok k1 /\ keys (k_outputs k1) = ["x"] /\
-  function_class (derive false b d) = Ok k2 /\ keys (k_outputs k2) = ["shift"].
+  function_class (derive true b d) = Ok k /\ function_class (derive false b d) = Ok k /\
+  keys (k_outputs k) = ["shift"].
 Proof.
   pose (b := {| f_params := [ {| p_name := "x"; p_default := None; p_ann := None |} ];
                 f_body := [RSingle {| r_frags := ["x"]; r_expr := EParam "x" |}];
@@ -140,12 +142,9 @@ Proof.
                 f_body := [RSingle {| r_frags := ["shift"]; r_expr := EParam "shift" |}];
                 f_ret := None; f_declared := None; f_validate := true |}).
   exists b, d.
-  destruct (function_class (derive true b d)) as [k1|] eqn:E1; [|vm_compute in E1; discriminate].
-  destruct (function_class (derive false b d)) as [k2|] eqn:E2; [|vm_compute in E2; discriminate].
-  exists k1, k2. vm_compute in E1. injection E1 as <-. vm_compute in E2. injection E2 as <-.
-  vm_compute. repeat split; reflexivity.
+  destruct (function_class (derive true b d)) as [k|] eqn:E; [|vm_compute in E; discriminate].
+  exists k. vm_compute in E. injection E as <-. vm_compute. repeat split; reflexivity.
 Qed.
-Print Assumptions C17_subclass_refuted_scraped_leak.
 
 (* ---- transformers ------------------------------------------------------------------ *)
 (* inputs_to_list(n), ALL n, ALL construction splits, ALL histories of call splits (repeated
